@@ -42,6 +42,15 @@ SUBROUTINE_ARGS = {
     "RANDOM_SEED": [("size", "out"), ("put", "in"), ("get", "out")],  # 16.9.156
     "SYSTEM_CLOCK": [("count", "out"), ("count_rate", "out"),
                      ("count_max", "out")],                           # 16.9.186
+    # collective subroutines (A need not be a coarray)        16.9.46 - 16.9.50
+    "CO_BROADCAST": [("a", "inout"), ("source_image", "in"), ("stat", "out"),
+                     ("errmsg", "inout")],
+    "CO_MAX": [("a", "inout"), ("result_image", "in"), ("stat", "out"),
+               ("errmsg", "inout")],
+    "CO_MIN": [("a", "inout"), ("result_image", "in"), ("stat", "out"),
+               ("errmsg", "inout")],
+    "CO_SUM": [("a", "inout"), ("result_image", "in"), ("stat", "out"),
+               ("errmsg", "inout")],
 }
 
 
@@ -199,6 +208,22 @@ def intrinsic_subroutine(interp, name, node, frame):
             if len(_cells(stor)) < 8:
                 raise I.UB("args", "GET shorter than the seed")
             _define(interp, frame, args["get"][0], lambda p: 7 * p + 3)
+    elif name in ("CO_BROADCAST", "CO_MAX", "CO_MIN", "CO_SUM"):
+        # executed by one image: A is (re)defined with the value computed
+        # over all images, i.e. its own value
+        if has("errmsg"):
+            raise I.Unsupported("character argument")
+        for dummy in ("source_image", "result_image"):
+            if has(dummy) and vals[dummy] != 1:
+                raise I.UB("args", f"{dummy} is not an image index")
+        stor = interp.designator(args["a"][0], frame)
+        for cell in _cells(stor):
+            val = interp._rd(cell, args["a"][0])
+            if val is I.POISON:
+                raise I.UB("poison-control", "undefined argument to a collective")
+            interp._wr(cell, val, args["a"][0])
+        if has("stat"):
+            _define(interp, frame, args["stat"][0], lambda p: 0)
     elif name == "SYSTEM_CLOCK":
         consts = {"count": 12345, "count_rate": 1000, "count_max": 2147483647}
         for dummy, val in consts.items():
